@@ -2,6 +2,7 @@ package props
 
 import (
 	"context"
+	"crypto/sha256"
 	"encoding/hex"
 	"encoding/json"
 	"fmt"
@@ -27,7 +28,10 @@ type c03In struct {
 	Op   string   `json:"op"` // "prove-record", "prove-tree", "check-record", "check-tree", "huge-record", "huge-tree", "reject-record", "reject-tree"
 	Sub  int64    `json:"sub,omitempty"`
 	Size int      `json:"size,omitempty"`
-	Rec  string   `json:"rec_hex,omitempty"` // huge-*: the record every entry of the virtual log holds
+	Rec  string   `json:"rec_hex,omitempty"` // huge-*, sparse-*: the record every entry of the virtual log holds
+	Sp   []int64  `json:"special,omitempty"`  // sparse-*: positions holding the record rec#<position> instead
+	Data string   `json:"data_hex,omitempty"` // leaf: record content
+	Lens bool     `json:"boundary_lengths,omitempty"` // prove-*: the log is gen.BoundaryLenRecords(sub, size)
 	P    []string `json:"p_hex,omitempty"`
 	T    int64    `json:"t"`
 	TH   string   `json:"th_hex,omitempty"`
@@ -640,8 +644,10 @@ func runC03(c *hx.Ctx) {
 		c03SizePairStream(c, false, self, sub, size, 2)
 		c03SizePairStream(c, true, self, sub, size, 2)
 	}
+	c03LeafSweep(c)
 	proversCrash := c03Canary(c)
 	c03Huge(c)
+	c03Sparse(c)
 	// provers: invalid arguments, failing readers, sizes beyond the log
 	for i := 0; i < c.N(300); i++ {
 		t := int64(r.Intn(size + 3))
@@ -795,6 +801,178 @@ func c03Canary(c *hx.Ctx) (crashed bool) {
 	return crashed
 }
 
+// ---------------------------------------------------------------- proof GENERATION on huge logs
+//
+// gen.SparseLog serves the stored hashes of a log of 2^32 .. 2^61 records (identical records but
+// for a few special positions) through its own inversion of the documented store layout; the
+// provers and TreeHash must produce exactly RFC 6962 PATH / PROOF / MTH and the checkers accept.
+
+func c03SparseLog(rec []byte, sp []int64) *gen.SparseLog {
+	special := map[int64][]byte{}
+	for _, p := range sp {
+		special[p] = append(append([]byte(nil), rec...), []byte(fmt.Sprintf("#%d", p))...)
+	}
+	return gen.NewSparseLog(rec, special)
+}
+
+func c03SparseProve(tree bool, rec []byte, sp []int64, t, n int64) string {
+	sl := c03SparseLog(rec, sp)
+	name := "ProveRecord"
+	if tree {
+		name = "ProveTree"
+	}
+	var p []tlog.Hash
+	var th tlog.Hash
+	var err, terr error
+	v, to := c03Timed(func() wire.Val {
+		if pn, _ := hx.Guard(func() {
+			if tree {
+				p, err = tlog.ProveTree(t, n, sl.Reader(t, nil))
+			} else {
+				p, err = tlog.ProveRecord(t, n, sl.Reader(t, nil))
+			}
+			th, terr = tlog.TreeHash(t, sl.Reader(t, nil))
+		}); pn {
+			return wire.Panic()
+		}
+		return wire.L()
+	})
+	switch {
+	case to:
+		return fmt.Sprintf("%s(%d, %d) / TreeHash on the sparse log do not return", name, t, n)
+	case v.String() == wire.Panic().String():
+		return fmt.Sprintf("%s(%d, %d) / TreeHash on the sparse log panic", name, t, n)
+	case err != nil:
+		return fmt.Sprintf("%s(%d, %d, reader of the %d-record log): %v", name, t, n, t, err)
+	case terr != nil:
+		return fmt.Sprintf("TreeHash(%d, reader of the %d-record log): %v", t, t, terr)
+	}
+	root := sl.Root(t)
+	if th != root {
+		return fmt.Sprintf("TreeHash(%d) = %v, RFC 6962 MTH of the log is %v", t, th, root)
+	}
+	var want []tlog.Hash
+	u := c03Tuple{P: p, T: t, TH: root, N: n}
+	if tree {
+		want, u.H = sl.Proof(n, t), sl.Root(n)
+	} else {
+		want, u.H = sl.Path(n, t), sl.Leaf(n)
+	}
+	if !c03SameHashes(p, want) {
+		return fmt.Sprintf("%s(%d, %d) = %v, RFC 6962 says %v", name, t, n, p, want)
+	}
+	cv, cto := c03CheckRecord, false
+	if tree {
+		cv = c03CheckTree
+	}
+	r, cto := cv(u)
+	if cto || !c03Accepted(r) {
+		return fmt.Sprintf("the checker does not accept the proof %s(%d, %d) produced: %s", name, t, n, r.String())
+	}
+	return ""
+}
+
+func c03Sparse(c *hx.Ctx) {
+	r := c.Rng
+	rec := make([]byte, 1+r.Intn(40))
+	r.Read(rec)
+	recHex := hex.EncodeToString(rec)
+	var sizes []int64
+	for _, b := range []uint{20, 31, 32, 33, 40, 50, 61} {
+		p := int64(1) << b
+		sizes = append(sizes, p+11, p+1+r.Int63n(p/2))
+		if b < 61 {
+			sizes = append(sizes, p+p/2+r.Int63n(1000), p-1-r.Int63n(1000))
+		}
+	}
+	sizes = append(sizes, 1<<32+1<<31+1<<20+5, 3<<32+77, 1<<33+1<<32+12345)
+	for _, t := range sizes {
+		p2 := c03Pow2Below(t)
+		ns := []int64{0, 1, t / 2, p2 - 1, p2, p2 + 2, p2 + 3, t - 2, t - 1, r.Int63n(t), r.Int63n(t), p2 + r.Int63n(t-p2)}
+		for _, n := range ns {
+			if n < 0 || n >= t {
+				continue
+			}
+			sp := []int64{n, r.Int63n(t), r.Int63n(t)}
+			switch r.Intn(3) {
+			case 0:
+				sp = append(sp, 0, t-1)
+			case 1:
+				sp = append(sp, n^1, p2)
+			}
+			in := c03In{Op: "sparse-record", Rec: recHex, Sp: sp, T: t, N: n}
+			msg := c03SparseProve(false, rec, sp, t, n)
+			c.Check("huge-log-prove-record-is-PATH-and-accepted", msg == "", "", in, msg)
+			in.Op, in.N = "sparse-tree", n+1
+			msg = c03SparseProve(true, rec, sp, t, n+1)
+			c.Check("huge-log-prove-tree-is-PROOF-and-accepted", msg == "", "", in, msg)
+			c.Count(fmt.Sprintf("huge-log-proofs:bits=%d", bitsLen64(t)))
+			c.Nontrivial(fmt.Sprintf("s:%d:%d", t, n))
+		}
+	}
+}
+
+func bitsLen64(x int64) int {
+	n := 0
+	for ; x > 0; x >>= 1 {
+		n++
+	}
+	return n
+}
+
+// ---------------------------------------------------------------- leaf hash at every length
+
+func c03Leaf(d []byte) string {
+	var h tlog.Hash
+	if p, pm := hx.Guard(func() { h = tlog.RecordHash(d) }); p {
+		return "RecordHash panics: " + pm
+	}
+	if want := sha256.Sum256(append([]byte{0}, d...)); h != tlog.Hash(want) {
+		return fmt.Sprintf("RecordHash of %d bytes = %v, SHA-256(0x00 || data) = %v", len(d), h, tlog.Hash(want))
+	}
+	return ""
+}
+
+// c03LeafSweep: every record length 0..1100, random content and the same content with only the
+// last byte changed; then a log whose records have boundary lengths, every (t, n).
+func c03LeafSweep(c *hx.Ctx) {
+	r := c.Rng
+	for n := 0; n <= 1100; n++ {
+		d := make([]byte, n)
+		r.Read(d)
+		for k := 0; k < 2; k++ {
+			if k == 1 {
+				if n == 0 {
+					break
+				}
+				d[n-1] ^= byte(1 + r.Intn(255))
+			}
+			if msg := c03Leaf(d); msg != "" {
+				c.Check("leaf-hash-is-sha256(0x00||data)-at-every-length", false, "", c03In{Op: "leaf", Data: hex.EncodeToString(d)}, msg)
+			} else {
+				c.Check("leaf-hash-is-sha256(0x00||data)-at-every-length", true, "", nil, "")
+			}
+		}
+	}
+	sub, size := r.Int63(), 56
+	records := gen.BoundaryLenRecords(rand.New(rand.NewSource(sub)), size)
+	l, err := gen.NewMemLog(records)
+	if err != nil {
+		c.Check("log builds", false, "", c03In{Op: "log", Sub: sub, Size: size, Lens: true}, err.Error())
+		return
+	}
+	rfc := gen.NewRfc6962(records)
+	for t := int64(1); t <= int64(size); t++ {
+		for _, n := range []int64{0, t - 1, r.Int63n(t), r.Int63n(t)} {
+			msg, _ := c03ProveRecord(l, rfc, t, n)
+			c.Check("prove-record-is-PATH-and-accepted", msg == "", "", c03In{Op: "prove-record", Sub: sub, Size: size, Lens: true, T: t, N: n}, msg)
+			msg, _ = c03ProveTree(l, rfc, t, n+1)
+			c.Check("prove-tree-is-PROOF-and-accepted", msg == "", "", c03In{Op: "prove-tree", Sub: sub, Size: size, Lens: true, T: t, N: n + 1}, msg)
+			c.Count("boundary-length-log")
+		}
+	}
+}
+
 func c03Huge(c *hx.Ctx) {
 	r := c.Rng
 	const p61, p62, top = int64(1) << 61, int64(1) << 62, int64(1<<63 - 1)
@@ -915,6 +1093,9 @@ func replayC03(raw json.RawMessage) (bool, string) {
 		return false, err.Error()
 	}
 	records := gen.LogRecords(rand.New(rand.NewSource(in.Sub)), in.Size)
+	if in.Lens {
+		records = gen.BoundaryLenRecords(rand.New(rand.NewSource(in.Sub)), in.Size)
+	}
 	l, err := gen.NewMemLog(records)
 	if err != nil {
 		return false, "log: " + err.Error()
@@ -951,6 +1132,18 @@ func replayC03(raw json.RawMessage) (bool, string) {
 		} else {
 			msg, _ = c03HugeHonestTree(gen.NewVirtualLog(rec), in.T, in.N)
 		}
+	case "sparse-record", "sparse-tree":
+		rec, err := hex.DecodeString(in.Rec)
+		if err != nil {
+			return false, "rec_hex: " + err.Error()
+		}
+		msg = c03SparseProve(in.Op == "sparse-tree", rec, in.Sp, in.T, in.N)
+	case "leaf":
+		d, err := hex.DecodeString(in.Data)
+		if err != nil {
+			return false, "data_hex: " + err.Error()
+		}
+		msg = c03Leaf(d)
 	case "prove-canary":
 		msg = c03CanaryRun(in.T, in.N)
 	case "reject-record":
